@@ -311,6 +311,36 @@ func janitorMode(a map[string]string) {
 			fmt.Printf("janitor %s reentrant callback ok\n", ct.name)
 		}
 	}
+	// "reload on eviction": the callback stores the evicted key again with a TTL (once).  Nothing else with a TTL is
+	// left in the cache, and nobody calls the cache from outside: the janitor alone must collect the reloaded entry
+	// and report it
+	for _, ct := range ctors {
+		var first, second int64
+		var c cacheAPI
+		c = ct.mk(10*time.Second, func(k string, v interface{}) {
+			if s, _ := v.(string); s == "gen1" {
+				atomic.AddInt64(&first, 1)
+				c.Set(k, "gen2", time.Millisecond)
+			} else {
+				atomic.AddInt64(&second, 1)
+			}
+		})
+		c.Set("a", "gen1", time.Millisecond)
+		ok := false
+		for w := 0; w < 1000; w++ { // up to 5 s
+			if atomic.LoadInt64(&first) == 1 && atomic.LoadInt64(&second) == 1 {
+				ok = true
+				break
+			}
+			time.Sleep(5 * time.Millisecond)
+		}
+		if !ok || c.Count() != 0 {
+			bad++
+			fmt.Printf("BAD-janitor-reload %s: an entry stored with a TTL by the evicted callback was not collected by the janitor in 5 s (first=%d second=%d count=%d, want 1 1 0)\n", ct.name, atomic.LoadInt64(&first), atomic.LoadInt64(&second), c.Count())
+		} else {
+			fmt.Printf("janitor %s reload-on-eviction ok\n", ct.name)
+		}
+	}
 	// leak check: create and drop caches (with entries and callbacks, janitor on and off, interleaved), collect
 	runtime.GC()
 	time.Sleep(10 * time.Millisecond)
